@@ -331,9 +331,10 @@ Lemma ok_changes_state r n sd d n' :
   step_r r n (set_op sd d) = (n', Ok tt) -> n' <> n.
 Proof.
   intros H Heq. subst n'. apply set_step_ok_edge in H. destruct H as [_ He].
-  assert (Hl : length (events n) = length (events n ++ [st n])) by (rewrite <- He; reflexivity).
+  assert (Hl : List.length (events n) = List.length ((events n ++ [st n])%list))
+    by (rewrite <- He; reflexivity).
   rewrite app_length in Hl. cbn in Hl.
-  clear -Hl. induction (length (events n)); cbn in Hl; [discriminate | inversion Hl; auto].
+  clear -Hl. induction (List.length (events n)); cbn in Hl; [discriminate | inversion Hl; auto].
 Qed.
 
 Lemma exchange_local_offer ops o mid a n1 n3 :
